@@ -14,6 +14,10 @@ Evaluated on the REAL Core and Mono dumps of every program of the C01 streams by
 import os, subprocess
 import vlib
 
+# the four places where the fragment asks for more than Wt.errs does (reasons of Driver/TSound / ValTy.whyE)
+STRONGER = ("cget:variant-not-established", "cget:not-on-a-variable", "cget:kind", "constr:kind",
+            "traitcall:dispatch-row-signature", "call:not-the-instance-matchTy-finds", "call:annotation-vs-arguments")
+
 def definite(status):
     return status == "ok" or status.startswith("panic:")
 
@@ -37,7 +41,7 @@ def evaluate(ctx, progs, fuel="200000"):
         f = l.split("\t")
         if len(f) >= 2:
             res[f[0]] = f[1:]
-    n_wt = n_in = n_in_tc = 0
+    n_wt = n_in = n_in_tc = n_stronger = 0
     why, by_stream = {}, {}
     core_sites = core_sites_ok = core_other = 0
     core_agree = core_skip = 0
@@ -64,10 +68,13 @@ def evaluate(ctx, progs, fuel="200000"):
             if len(samples_in) < 3:
                 samples_in.append(pid)
         else:
-            k = reason.split(":")[0] + (":" + reason.split(":")[1] if reason.startswith(("traitcall:", "cget:", "call:")) else "")
+            k = reason.split(":")[0] + (":" + reason.split(":")[1] if reason.startswith(("traitcall:", "cget:", "call:", "constr:")) else "")
             if k.startswith("call:builtin"):
-                k = "call:builtin-outside-the-admitted-list"
+                b = reason.split(":")[2] if reason.count(":") >= 2 else "?"
+                k = "call:builtin:" + (b if b in ("ref", "ref_get", "ref_set", "array_get", "array_set", "vec_new", "vec_push", "vec_get", "vec_len", "string_get") else "extern")
             why[k] = why.get(k, 0) + 1
+            if k in STRONGER:
+                n_stronger += 1
             if len(samples_out) < 4:
                 samples_out.append({"id": pid, "reason": reason[:120]})
         core_sites += int(nc); core_sites_ok += int(nc_ok); core_other += int(n_other)
@@ -95,6 +102,7 @@ def evaluate(ctx, progs, fuel="200000"):
         "in_fragment_of_sem_preserves_types_partial(sigClosedB && ValTy.okProg)": n_in,
         "of_those_with_a_trait_call_in_Core": n_in_tc,
         "outside_by_first_reason": dict(sorted(why.items(), key=lambda kv: -kv[1])),
+        "programs_outside_first_because_of_a_condition_stronger_than_Wt(enum field read without the variant fact, struct/enum kind, dispatch row signature, exact callee instance)": n_stronger,
         "by_stream": by_stream,
         "in_fragment_but_stuck_under_Sem(expected 0; progress is not proved)": in_stuck[:5],
         "core_trait_calls_on_a_concretely_annotated_receiver": core_sites,
@@ -116,6 +124,6 @@ def collect_and_evaluate(ctx):
     return evaluate(ctx, progs)
 
 ASSUMPTIONS = [
-    "type soundness: `sem_preserves_types_partial` is about `Sem` and the judgement `Wt` on the fragment `ValTy.okE` (no closures, references, vectors, arrays, trait objects, function values; callees are program functions or the printing builtins; enum field reads under an arm that established the variant; trait calls on concretely annotated receivers with a dispatch row of the annotated signature); outside it soundness is only validated by the runs",
+    "type soundness: `sem_preserves_types_partial` is about `Sem` and the judgement `Wt` on the fragment `ValTy.okE` (closures and function values included; no references, vectors, arrays, trait objects, `go`; callees are fragment expressions of function type or the printing / conversion builtins; enum field reads under an arm that established the variant; trait calls on concretely annotated receivers with a dispatch row of the annotated signature); outside it soundness is only validated by the runs",
     "static dispatch: the oracle restores dynamic dispatch in the REAL Mono dump (key of the runtime receiver must be the key of the declared receiver type of the function mono chose) and compares `Sem` outcomes at the same fuel; programs whose plain run is not definite within the fuel are skipped",
 ]
